@@ -72,7 +72,7 @@ Section Vss.
     then Ok (upd b a (map (fun x => x mod 256) (firstn (N.to_nat n) src))) else OOB (a / 4).
   (* memcpy(dst, b + a, n) into a destination of [cap] bytes *)
   Definition cpy_out (b:buf) (a n cap:N) : outcome (list N) :=
-    if (a + n <=? blen b) && (n <=? cap) then Ok (slice b a (N.to_nat n)) else OOB (a / 4).
+    if (a + n <=? blen b) && (n <=? cap) then Ok (slice_fast b a (N.to_nat n)) else OOB (a / 4).
 
   (* ---------- Avtp_Vss_Pad ---------- *)
   Definition vss_pad (b:buf) (vss_length:N) : outcome buf :=
